@@ -93,6 +93,14 @@ Proof.
 Qed.
 Print Assumptions C10_retry_loop.
 
+(* ... and, whatever the sub-protocols do (arbitrary [aok]) and whatever the two
+   lists are, it terminates within that many rounds: the model's fuel is never
+   exhausted (each failed round withdraws one bit of the client's bitmask) *)
+Theorem C10_loop_total : forall (aok : meth -> bool) (sm cms : list meth),
+  snd (auth_loop (S (length cms)) aok sm cms (mask cms)) <> LFuel.
+Proof. exact loop_never_out_of_fuel. Qed.
+Print Assumptions C10_loop_total.
+
 (* ---- non-vacuity: realistic configurations satisfying the hypotheses -------- *)
 
 Definition ex_aok := implemented.
